@@ -439,6 +439,7 @@ func init() {
 func c11BatchAndParams(c *Ctx) {
 	c11BodyLimitConstant(c)
 	c11NullRequired(c)
+	c11OneMessagePerWrite(c)
 	c11UnknownNameRejected(c)
 	p := c.P
 	if f := p.Func("jsonrpc", "Server", "handleBatchRequest"); f != nil {
@@ -911,5 +912,83 @@ func c11NullRequired(c *Ctx) {
 	}
 	if n == 0 {
 		c.und("null-required", "buildArguments", p.Pos(fnPos(f)), "no parseParam hand-over found")
+	}
+}
+
+// c11OneMessagePerWrite: (one-message-per-write) a transport's Write hands the payload to the connection as ONE message. On
+// the websocket transport every conn.Write call is a message of its own, so the payload handed to it must be the whole
+// buffer the writer received — never a sub-slice of it, never inside a loop (seeded change C11-K chunks responses above
+// 1 MiB "for slow clients": each chunk reaches the client as a separate message, none of them valid JSON).
+func c11OneMessagePerWrite(c *Ctx) {
+	p := c.P
+	n := 0
+	for _, fn := range p.sortedFuncs() {
+		if pkgRelOf(fn) != "jsonrpc" || fn.Origin() != nil || strings.HasSuffix(p.Pos(fnPos(fn)), "_test.go") {
+			continue
+		}
+		for _, s := range sitesOf(fn) {
+			cal := s.Callee
+			if cal == nil || cal.Name() != "Write" || cal.Signature.Recv() == nil || !strings.HasSuffix(cal.Signature.Recv().Type().String(), "websocket.Conn") {
+				continue
+			}
+			n++
+			args := s.Args()
+			payload := args[len(args)-1]
+			bad := ""
+			// whole buffer: not a slice expression with bounds, followed through φ and through the caller's argument when the
+			// payload is a parameter of an unexported helper
+			var whole func(v ssa.Value, f *ssa.Function, d int) bool
+			whole = func(v ssa.Value, f *ssa.Function, d int) bool {
+				if d > 4 {
+					return true
+				}
+				switch x := v.(type) {
+				case *ssa.Slice:
+					if x.Low != nil || x.High != nil {
+						bad = "a sub-slice " + term(v)
+						return false
+					}
+					return whole(x.X, f, d+1)
+				case *ssa.Phi:
+					for _, e := range x.Edges {
+						if !whole(e, f, d+1) {
+							return false
+						}
+					}
+				case *ssa.Parameter:
+					if f.Object() != nil && !f.Object().Exported() {
+						idx := -1
+						for i, pa := range f.Params {
+							if pa == x {
+								idx = i
+							}
+						}
+						for _, cs := range p.callersOf(f) {
+							if a := cs.Args(); idx >= 0 && idx < len(a) {
+								if !whole(a[idx], cs.Fn, d+1) {
+									return false
+								}
+							}
+						}
+					}
+				}
+				return true
+			}
+			ok := whole(payload, fn, 0)
+			inLoop := inSameLoop(s.Instr.Block(), s.Instr.Block())
+			for _, cs := range p.callersOf(fn) {
+				if fn.Object() != nil && !fn.Object().Exported() && inSameLoop(cs.Instr.Block(), cs.Instr.Block()) {
+					inLoop = true
+				}
+			}
+			if inLoop {
+				ok = false
+				bad += " written inside a loop"
+			}
+			c.check(ok, "one-message-per-write", qname(fn)+" → websocket.Conn.Write", p.Pos(s.Pos()), "the whole buffer is written as one websocket message", "the payload of a websocket message is "+bad+": a response is split over several messages, none of which is a JSON-RPC response on its own")
+		}
+	}
+	if n == 0 {
+		c.und("one-message-per-write", "jsonrpc websocket transport", "", "no websocket.Conn.Write call found")
 	}
 }
